@@ -160,7 +160,7 @@ func (h *hostPool) log(vs ...interface{}) {
 	h.trace = append(h.trace, "("+strings.Join(p, ",")+")")
 }
 
-var hostNames = []string{"probe", "probe2", "hvar", "hpair", "hpanic", "hnone", "hfix3", "hzero", "hid", "mkdur", "mkvals", "mkints", "mkptr", "hsend", "hcall0", "hcall1", "hcallr", "hcall2"}
+var hostNames = []string{"probe", "probe2", "hvar", "hpair", "hpanic", "hnone", "hfix3", "hzero", "hid", "mkdur", "mkvals", "mkints", "mkptr", "hsend", "hcall0", "hcall1", "hcallr", "hcall2", "mkarr", "mkarrs"}
 
 func (h *hostPool) define(e *env.Env) {
 	e.Define("probe", func(x interface{}) interface{} { h.log(x); return x })
@@ -183,6 +183,8 @@ func (h *hostPool) define(e *env.Env) {
 	e.Define("mkvals", func() url.Values { return url.Values{"k": {"one", "two"}} })
 	e.Define("mkints", func() sort.IntSlice { return sort.IntSlice{3, 1, 2} })
 	e.Define("mkptr", func() *time.Duration { d := 90 * time.Second; return &d })
+	e.Define("mkarr", func() [3]int64 { return [3]int64{1, 2, 3} })
+	e.Define("mkarrs", func() [2][]string { return [2][]string{{"a"}, {"b", "c"}} })
 }
 
 type interpResult struct {
